@@ -14,6 +14,7 @@ import (
 	"encoding/json"
 	"flag"
 	"fmt"
+	"io"
 	"math"
 	"math/big"
 	"os"
@@ -64,6 +65,8 @@ type Obs struct {
 	Want2   string      `json:"want2,omitempty"`
 	Canon   *bool       `json:"canon,omitempty"` // gort: every float literal json.Marshal wrote is canonical
 	N       int         `json:"n,omitempty"`     // runes: code points checked
+	Pos     [][2]int    `json:"pos,omitempty"`   // rawpos: (line, column) of every token, EOF last
+	EPos    [][2]int    `json:"epos,omitempty"`  // rawpos: positions of the lexer's errors
 	Strs    [][]int     `json:"strs,omitempty"`  // shell tokens (bytes)
 	Floats  []FloatEnt  `json:"floats,omitempty"`
 	Valid   *bool       `json:"valid,omitempty"` // json.Valid(output)
@@ -446,6 +449,8 @@ func runCase(c *Case) {
 	case "raw":
 		ts, es := jsonx.VerifRawTokens(in)
 		o.Toks, o.Errs, o.Ok = toks(ts), errNames(es), true
+	case "rawpos":
+		runRawPos(o, in)
 	case "filtered":
 		ts, es := jsonx.VerifTokens(in)
 		o.Toks, o.Errs, o.Ok = toks(ts), errNames(es), true
@@ -579,6 +584,9 @@ func runCase(c *Case) {
 			if s, err4 := jsonx.Sprint(c.goVal); (err4 == nil) != (err1 == nil) || (err1 == nil && s != string(want)) {
 				notes = append(notes, "Sprint differs from Marshal")
 			}
+			if pb, err5 := capturePrint(c.goVal); (err5 == nil) != (err1 == nil) || (err1 == nil && !bytes.Equal(pb, want)) {
+				notes = append(notes, "Print (standard output) differs from Marshal")
+			}
 		} else {
 			os.WriteFile(fn, in, 0644)
 		}
@@ -631,6 +639,27 @@ func runCase(c *Case) {
 			o.Got = got
 		}
 	}
+}
+
+// capturePrint runs jsonx.Print with os.Stdout replaced by a pipe.
+func capturePrint(v interface{}) ([]byte, error) {
+	r, w, err := os.Pipe()
+	if err != nil {
+		return nil, err
+	}
+	old := os.Stdout
+	os.Stdout = w
+	done := make(chan []byte)
+	go func() {
+		b, _ := io.ReadAll(r)
+		done <- b
+	}()
+	perr := jsonx.Print(v)
+	os.Stdout = old
+	w.Close()
+	b := <-done
+	r.Close()
+	return b, perr
 }
 
 func nonPrint(s string) []int {
